@@ -431,3 +431,12 @@ PROPS["C12"]["level_text"] += (" TestVF_C12Archive feeds generated archive strea
 PROPS["C05"]["level_text"] += (" Histories also hold a drag that is taken back (paths kept from the server by design, the key goes through, output keeps passing) and, beside every "
                                "download the wrapper refuses by itself, 400 ms of remote lines and typed tokens that must all get through.")
 PROPS["C03"]["level_text"] += " Reads that start at a chunk boundary and end inside the next chunk may be issued with an already-fired timer: a read that times out has consumed nothing."
+
+# ---- after round 7 of seeded changes and finding F16 ----
+PROPS["C14"]["level_text"] += (" The relay rig ends a transfer in four ways (EXIT once the relay is transferring; the client's #fail: while the relay still waits for a slow "
+                               "server's configuration; EXIT right behind the configuration; the server's #fail: in the same write as its configuration) and the e2e sequences "
+                               "hold the server (SIGSTOP) before the action reaches it and stop the client or interrupt the server in that window (F16).")
+PROPS["C05"]["level_text"] += " Stopped / interrupted transfers may end while the server is held before it has seen the action; reads may end one byte behind the OSC52 introducer."
+PROPS["C06"]["level_text"] += " Scrollback cases place finished trigger words at offsets 40..45 of the look-ahead window."
+PROPS["C13"]["level_text"] += " One profile parks several thousand small pieces during one handshake while the server answers late."
+PROPS["C18"]["level_text"] += " Pause points inside the buffer-probing phase are never thinned by the quick tier's stride."
